@@ -47,7 +47,9 @@ for _n, _file in (("12", "mds_f64_12x12"), ("8", "mds_f64_8x8")):
           "on every unit vector scaled by a symbolic 32-bit factor the result is the corresponding column of the documented circulant MDS matrix (with linearity, which is not proved here, this is the matrix product)",
           bounded="one non-zero coordinate, every position; raw value symbolic 32-bit for 8x8 (thorough tier), 1 and 2^32-1 for 12x12",
           timeout=900, timeout_thorough=1800, tier="quick" if _n == "12" else "thorough"),
-    ] + [
+    ] + ([H("mds12_unit_vector64_j3_contract", ["C11"], ["mds_f64_12x12::mds_multiply"],
+            "state with one non-zero coordinate (position 3) holding any canonical word c: output i == MDS[i][3] * c mod M (independent 128-bit reference)",
+            bounded="one non-zero coordinate at position 3; its 64-bit value fully symbolic", timeout=1800, timeout_thorough=2400, tier="thorough", cost=8)] if _n == "12" else []) + [
         H("mds%s_canary_must_fail" % _n, ["C11"], [], "false claim: second output is always 0", canary=True),
     ])
 
